@@ -30,6 +30,11 @@ def cases(ctx):
         out += ndcases(rng, n, 5, pts, inn, pens=(0, 0, 1, 2), mss=(0, 0, 0, 4), mds=(0, 0, 0, 7, 11), psi_prob=0.4)
         pr = ndcases(rng, n // 2, 5, pts, inn, pens=(0, 0, 1), psi_prob=0.2, prune=True)
         out += [c for c in pr if c["pen"] == 0 or len(c["s1"]) == len(c["s2"])]
+    # relaxed ends under a SLIDING band (see dtwcases.sliding_end_cases)
+    for pts, inn in ((P2, ("sq", "eu")), (P3, ("sq", "eu"))):
+        for c in dc.sliding_end_cases(rng, n // 2, pts, inn):
+            c["use_ndim"] = True
+            out.append(c)
     # small exhaustive slice in 2-D: all series pairs up to length 2 over the rectangle
     import itertools
     ser = [[list(p) for p in t] for k in (1, 2) for t in itertools.product(P2, repeat=k)]
